@@ -60,7 +60,7 @@ def uniform_exact(n, leaves=LEAVES_SMALL, ops=BIN, unary=True):
 # ---- term-structured -------------------------------------------------------------------
 
 TERMS_Q = ["2", "4", "-3", "0.5", "x", "y", "2x", "4x", "-3x", "-x", "x^2", "2x^2", "4y", "0.5x^2"]
-TERMS_T = TERMS_Q + ["0", "1", "x^0", "0x", "1x", "0.5x^2", "x^-1", "x^0.5", "-x^2", "3y^2", "-1x", "12", "1.5x"]
+TERMS_T = TERMS_Q + ["0", "1", "x^0", "0x", "1x", "x^-1", "x^0.5", "-x^2", "3y^2", "-1x", "12", "1.5x", "2.0x", "x^2.0", "6x^2"]
 OPS_TERM = ["+", "-", "*", "/"]
 
 
